@@ -215,7 +215,36 @@ func (x *Exec) havocCall(fr *Frame, st *State, c *ssa.CallCommon, callee *ssa.Fu
 			}
 		}
 		if all {
-			x.havocAllKeep(st, x.closureWritten())
+			// a dependency function can run a closure of this function only through a
+			// function or interface value it is handed; with plain arguments (pdata
+			// wrappers, numbers, strings) the closure-written locals keep their value
+			skip := x.closureWritten()
+			if !mayReceiveCallback(c) {
+				skip = map[*ssa.Alloc]bool{}
+				x.vc.usedAssumed["dependency functions that receive no function or interface value do not run closures of the calling function"] = true
+			}
+			// the captured variables of a closure under verification live in cells of the
+			// enclosing function: the same argument keeps them
+			type savedFV struct{ key, ptr, val string }
+			var fvs []savedFV
+			if !mayReceiveCallback(c) && x.top != nil {
+				for _, fv := range x.top.fn.FreeVars {
+					et := pointee(fv.Type())
+					if et == nil {
+						continue
+					}
+					pv, ok := x.top.regs[fv]
+					if !ok || pv.T == "" {
+						continue
+					}
+					k := x.vc.heapKey("H", et)
+					fvs = append(fvs, savedFV{k, pv.T, x.vc.freshDef("keep_"+fv.Name(), x.vc.sortOf(et), fmt.Sprintf("(select %s %s)", x.vc.heapGet(st, k), pv.T))})
+				}
+			}
+			x.havocAllKeep(st, skip)
+			for _, f := range fvs {
+				st.heap[f.key] = fmt.Sprintf("(store %s %s %s)", x.vc.heapGet(st, f.key), f.ptr, f.val)
+			}
 			x.vc.noteOnce("havoc-all at uncontracted call " + desc)
 		} else {
 			for _, k := range keys {
@@ -1526,7 +1555,7 @@ func (x *Exec) iterateCall(fr *Frame, st *State, ct *FuncContract, callee *ssa.F
 		}
 		r = x.inline(fr, body, cloFn, cargs, bind, cct, false)
 	}
-	if r.T != "" {
+	if r.T != "" && !ct.IterAny {
 		vc.oblige(fmt.Sprintf("%s/iter-continues@%s", fr.unit, site), "assert", fr.unit, x.pos(pos), "the function passed to "+ct.Key+" returns true (early stop is not modelled)", body.pc, r.T)
 	}
 	next := fmt.Sprintf("(+ %s 1)", iT)
@@ -1561,4 +1590,34 @@ func (x *Exec) ptrParts(t string, typ types.Type, depth int) []string {
 		return out
 	}
 	return nil
+}
+
+// mayReceiveCallback: does the call hand a function value, an interface value
+// or a pointer / slice / map (which may hold one) of non-dependency type to the
+// callee?  Receivers and arguments that are dependency-declared struct values
+// (pdata wrappers), basic values and strings cannot carry a closure of the
+// calling function.
+func mayReceiveCallback(c *ssa.CallCommon) bool {
+	check := func(t types.Type) bool {
+		switch u := t.Underlying().(type) {
+		case *types.Signature, *types.Interface, *types.Map, *types.Chan:
+			return true
+		case *types.Pointer, *types.Slice:
+			_ = u
+			if n, ok := types.Unalias(t).(*types.Named); ok && n.Obj().Pkg() != nil && !strings.HasPrefix(n.Obj().Pkg().Path(), repoModulePrefix) {
+				return false
+			}
+			return true
+		}
+		return false
+	}
+	if c.IsInvoke() {
+		return true
+	}
+	for _, a := range c.Args {
+		if check(a.Type()) {
+			return true
+		}
+	}
+	return false
 }
